@@ -42,10 +42,14 @@ structure LeafSem where
   prim : Prim → JVal → TRes Value
   /-- `ReadString` (enum symbols) -/
   str : JVal → TRes Bytes
+  /-- how a member name of the parsed document becomes the field name handed to the callback
+  (JSON: the parser already unescaped it; ROR2: the raw key token is percent-decoded) -/
+  key : Bytes → Option Bytes
 
 def jsonSem : LeafSem :=
   { prim := jsonPrim
-    str := fun t => match t with | .str b => .ok b [] | _ => .err .syntax }
+    str := fun t => match t with | .str b => .ok b [] | _ => .err .syntax
+    key := some }
 
 structure TCfg where
   env : Env
@@ -58,6 +62,22 @@ def bindT {α β : Type} (r : TRes α) (f : α → List Bytes → TRes β) : TRe
   | .err e => .err e
   | .panic => .panic
   | .unmodelled => .unmodelled
+
+/-- the callback the generated code passes to `ReadMap`, given how to read the member's value
+as a value of a type -/
+def treeCallbackWith (rd : Ty → TRes Value) (mode : MapMode) (acc : List (Bytes × Value))
+    (seen : List Bytes) (k : Bytes) : TRes (List (Bytes × Value)) :=
+  match mode with
+  | .record fields =>
+    (match findField fields k with
+    | some f => bindT (rd f.ty) (fun x m => .ok (setEntry acc k x) m)
+    | none => .ok acc [])
+  | .mapOf ty => bindT (rd ty) (fun x m => .ok (setEntry acc k x) m)
+  | .union members =>
+    if !seen.isEmpty then .err .union
+    else match members.lookup k with
+      | some ty => bindT (rd ty) (fun x m => .ok (setEntry acc k x) m)
+      | none => .err .union      -- `default:` of the generated switch: unknown member
 
 mutual
 /-- generated `UnmarshalRestLi` on a parsed JSON value; `top` = the reader is at the input start -/
@@ -109,28 +129,19 @@ the callback (and before the exclusion check) -/
 def treeReadEntries (c : TCfg) (scope : List Seg) (mode : MapMode) (acc : List (Bytes × Value))
     (seen : List Bytes) : List (Bytes × JVal) → TRes (List (Bytes × Value) × List Bytes)
   | [] => .ok (acc, seen) []
-  | (k, v) :: rest =>
+  | (k0, v) :: rest =>
     match v with
     | .null => treeReadEntries c scope mode acc seen rest
     | v =>
+      match c.sem.key k0 with
+      | none => .err .syntax
+      | some k =>
       let scope' := scope ++ [.key k]
       match c.tracker.check scope' with
       | .panic => .panic
       | .yes => .err (.excluded (scopeString scope'))
       | .no =>
-        let r : TRes (List (Bytes × Value)) :=
-          match mode with
-          | .record fields =>
-            (match findField fields k with
-            | some f => bindT (treeRead c false scope' f.ty v) (fun x m => .ok (setEntry acc k x) m)
-            | none => .ok acc [])
-          | .mapOf ty => bindT (treeRead c false scope' ty v) (fun x m => .ok (setEntry acc k x) m)
-          | .union members =>
-            if !seen.isEmpty then .err .union
-            else match members.lookup k with
-              | some ty => bindT (treeRead c false scope' ty v) (fun x m => .ok (setEntry acc k x) m)
-              | none => .err .union      -- `default:` of the generated switch: unknown member
-        bindT r (fun acc' m1 =>
+        bindT (treeCallbackWith (fun ty => treeRead c false scope' ty v) mode acc seen k) (fun acc' m1 =>
           bindT (treeReadEntries c scope mode acc' (seen ++ [k]) rest) (fun res m2 => .ok res (m1 ++ m2)))
 def treeReadItems (c : TCfg) (scope : List Seg) (ty : Ty) (index : Nat) : List JVal → TRes (List Value)
   | [] => .ok [] []
